@@ -1,1 +1,357 @@
-fn main() {}
+//! C05 correspondence harness: drives the real `GraphEngine` (graph_engine/src/lib.rs over
+//! tensor_store's metadata slab) with structural operations, sequentially and from 2-8 threads, and
+//! writes what the PUBLIC reads return as Gallina terms for NV.C05.Run:
+//!   seq  : (ops, [(result, observation)] after every op)          -> check_seq
+//!   conc : (mode, setup ops, threads [[(op, result)]], observation at quiescence) -> check_conc
+//! An observation = all_nodes ids, all_edges (id, from, to, directed) and per node
+//! edges_of(Outgoing/Incoming) ids, out_degree, in_degree, neighbors(Outgoing/Incoming/Both) ids.
+use graph_engine::{Direction, GraphEngine, GraphError, PropertyValue};
+use nvh_common::*;
+use std::collections::HashMap;
+use std::sync::{Arc, Barrier};
+
+#[derive(Clone, Debug, PartialEq)]
+enum Op {
+    CreateNode,
+    CreateEdge(u64, u64, bool),
+    CreateEdgeId(u64, u64, u64, bool),
+    DeleteEdge(u64),
+    DeleteNode(u64),
+    UpdateNode(u64),
+    UpdateEdge(u64),
+}
+#[derive(Clone, Debug, PartialEq)]
+enum Res {
+    Id(u64),
+    Ok,
+    NoNode(u64),
+    NoEdge(u64),
+    Err,
+}
+impl Op {
+    fn coq(&self) -> String {
+        match self {
+            Op::CreateNode => "CreateNode".into(),
+            Op::CreateEdge(f, t, d) => format!("CreateEdge {f} {t} {}", b(*d)),
+            Op::CreateEdgeId(e, f, t, d) => format!("CreateEdgeId {e} {f} {t} {}", b(*d)),
+            Op::DeleteEdge(e) => format!("DeleteEdge {e}"),
+            Op::DeleteNode(x) => format!("DeleteNode {x}"),
+            Op::UpdateNode(x) => format!("UpdateNode {x}"),
+            Op::UpdateEdge(e) => format!("UpdateEdge {e}"),
+        }
+    }
+}
+impl Res {
+    fn coq(&self) -> String {
+        match self {
+            Res::Id(i) => format!("RId {i}"),
+            Res::Ok => "ROk".into(),
+            Res::NoNode(x) => format!("RNoNode {x}"),
+            Res::NoEdge(x) => format!("RNoEdge {x}"),
+            Res::Err => "RErr".into(),
+        }
+    }
+}
+fn unit(r: Result<(), GraphError>) -> Res {
+    match r {
+        Ok(()) => Res::Ok,
+        Err(GraphError::NodeNotFound(x)) => Res::NoNode(x),
+        Err(GraphError::EdgeNotFound(x)) => Res::NoEdge(x),
+        Err(_) => Res::Err,
+    }
+}
+fn ident(r: Result<u64, GraphError>) -> Res {
+    match r {
+        Ok(i) => Res::Id(i),
+        Err(GraphError::NodeNotFound(x)) => Res::NoNode(x),
+        Err(GraphError::EdgeNotFound(x)) => Res::NoEdge(x),
+        Err(_) => Res::Err,
+    }
+}
+fn apply(e: &GraphEngine, o: &Op, salt: u64) -> Res {
+    match o {
+        Op::CreateNode => ident(e.create_node("N", HashMap::new())),
+        Op::CreateEdge(f, t, d) | Op::CreateEdgeId(_, f, t, d) => ident(e.create_edge(*f, *t, "T", HashMap::new(), *d)),
+        Op::DeleteEdge(x) => unit(e.delete_edge(*x)),
+        Op::DeleteNode(x) => unit(e.delete_node(*x)),
+        Op::UpdateNode(x) => {
+            let mut p = HashMap::new();
+            p.insert("v".to_string(), PropertyValue::Int(salt as i64));
+            unit(e.update_node(*x, None, p))
+        }
+        Op::UpdateEdge(x) => {
+            let mut p = HashMap::new();
+            p.insert("v".to_string(), PropertyValue::Int(salt as i64));
+            unit(e.update_edge(*x, p))
+        }
+    }
+}
+
+fn nl(xs: &[u64]) -> String {
+    list(xs.iter().map(|x| n(*x)))
+}
+fn observe(e: &GraphEngine) -> String {
+    let mut nodes: Vec<u64> = e.all_nodes().iter().map(|x| x.id).collect();
+    nodes.sort();
+    let edges = e.all_edges();
+    let ids = |d: Direction, x: u64| -> Vec<u64> { e.edges_of(x, d).map(|v| v.iter().map(|y| y.id).collect()).unwrap_or_else(|_| vec![u64::MAX]) };
+    let nb = |d: Direction, x: u64| -> Vec<u64> { e.neighbors(x, None, d, None).map(|v| v.iter().map(|y| y.id).collect()).unwrap_or_else(|_| vec![u64::MAX]) };
+    let per = nodes.iter().map(|&x| {
+        format!(
+            "NO {} {} {} {} {} {} {} {}",
+            x,
+            nl(&ids(Direction::Outgoing, x)),
+            nl(&ids(Direction::Incoming, x)),
+            e.out_degree(x).map(|v| v as u64).unwrap_or(u64::MAX),
+            e.in_degree(x).map(|v| v as u64).unwrap_or(u64::MAX),
+            nl(&nb(Direction::Outgoing, x)),
+            nl(&nb(Direction::Incoming, x)),
+            nl(&nb(Direction::Both, x))
+        )
+    });
+    format!(
+        "(OB {} {} {})",
+        nl(&nodes),
+        list(edges.iter().map(|x| format!("({}, ER {} {} {})", x.id, x.from, x.to, b(x.directed)))),
+        list(per)
+    )
+}
+
+fn gen_seq(r: &mut Rng, dist: &mut Dist) -> Vec<Op> {
+    let mut ops = vec![];
+    let n0 = r.range(1, 5);
+    for _ in 0..n0 {
+        ops.push(Op::CreateNode);
+    }
+    let mut nc = n0; // node ids handed out so far
+    let mut ec = 0u64; // upper bound of edge ids handed out so far
+    let len = r.range(3, 22);
+    for _ in 0..len {
+        let k = r.below(100);
+        let op = if k < 10 {
+            nc += 1;
+            Op::CreateNode
+        } else if k < 55 {
+            let f = r.range(1, nc + 1);
+            let t = if r.chance(1, 6) { f } else { r.range(1, nc + 1) };
+            ec += 1;
+            Op::CreateEdge(f, t, r.chance(1, 2))
+        } else if k < 73 {
+            Op::DeleteEdge(r.range(1, ec + 1))
+        } else if k < 85 {
+            Op::DeleteNode(r.range(1, nc + 1))
+        } else if k < 93 {
+            Op::UpdateNode(r.range(1, nc + 1))
+        } else {
+            Op::UpdateEdge(r.range(1, ec + 1))
+        };
+        dist.hit(match &op {
+            Op::CreateNode => "seq.create_node",
+            Op::CreateEdge(f, t, d) => {
+                if f == t {
+                    "seq.create_edge.self_loop"
+                } else if *d {
+                    "seq.create_edge.directed"
+                } else {
+                    "seq.create_edge.undirected"
+                }
+            }
+            Op::DeleteEdge(_) => "seq.delete_edge",
+            Op::DeleteNode(_) => "seq.delete_node",
+            Op::UpdateNode(_) => "seq.update_node",
+            Op::UpdateEdge(_) => "seq.update_edge",
+            _ => "seq.other",
+        });
+        ops.push(op);
+    }
+    ops
+}
+
+fn seq_case(ops: &[Op], tag: &str, w: &mut CaseWriter, dist: &mut Dist) {
+    let e = GraphEngine::new();
+    let mut items = vec![];
+    let mut deleted_node_with_edges = false;
+    for (i, o) in ops.iter().enumerate() {
+        let before = if let Op::DeleteNode(x) = o { e.degree(*x).unwrap_or(0) } else { 0 };
+        let res = guarded(std::panic::AssertUnwindSafe(|| apply(&e, o, i as u64))).unwrap_or(Res::Err);
+        if matches!(o, Op::DeleteNode(_)) && res == Res::Ok && before > 0 {
+            deleted_node_with_edges = true;
+        }
+        dist.hit(match res {
+            Res::Id(_) | Res::Ok => "seq.result.ok",
+            Res::NoNode(_) => "seq.result.node_not_found",
+            Res::NoEdge(_) => "seq.result.edge_not_found",
+            Res::Err => "seq.result.other_error",
+        });
+        items.push(format!("({}, {})", res.coq(), observe(&e)));
+    }
+    let term = format!("({}, {})", list(ops.iter().map(|o| o.coq())), list(items));
+    w.push(&term, &format!("{tag} ops={:?}", ops), deleted_node_with_edges);
+}
+
+/// run `threads` (one op list each) behind a barrier on a shared engine; returns per-thread (op, result)
+fn run_threads(e: &Arc<GraphEngine>, threads: Vec<Vec<Op>>) -> Vec<Vec<(Op, Res)>> {
+    let bar = Arc::new(Barrier::new(threads.len()));
+    let hs: Vec<_> = threads
+        .into_iter()
+        .enumerate()
+        .map(|(ti, ops)| {
+            let e = e.clone();
+            let bar = bar.clone();
+            std::thread::spawn(move || {
+                bar.wait();
+                let mut out = vec![];
+                for (i, o) in ops.iter().enumerate() {
+                    let res = guarded(std::panic::AssertUnwindSafe(|| apply(&e, o, (ti * 1000 + i) as u64))).unwrap_or(Res::Err);
+                    let o2 = match (o, &res) {
+                        (Op::CreateEdge(f, t, d), Res::Id(id)) => Op::CreateEdgeId(*id, *f, *t, *d),
+                        _ => o.clone(),
+                    };
+                    out.push((o2, res));
+                }
+                out
+            })
+        })
+        .collect();
+    hs.into_iter().map(|h| h.join().unwrap_or_default()).collect()
+}
+
+fn conc_case(mode: u64, setup: &[Op], threads: Vec<Vec<Op>>, tag: &str, w: &mut CaseWriter) {
+    let e = Arc::new(GraphEngine::new());
+    for (i, o) in setup.iter().enumerate() {
+        let _ = apply(&e, o, i as u64);
+    }
+    let nthreads = threads.len();
+    let results = if threads.is_empty() { vec![] } else { run_threads(&e, threads) };
+    let ob = observe(&e);
+    let term = format!(
+        "({}, {}, {}, {})",
+        mode,
+        list(setup.iter().map(|o| o.coq())),
+        list(results.iter().map(|t| list(t.iter().map(|(o, r)| format!("({}, {})", o.coq(), r.coq()))))),
+        ob
+    );
+    let total: usize = results.iter().map(|t| t.len()).sum();
+    w.push(&term, &format!("{tag} mode={mode} threads={nthreads} thread_ops={total} setup_ops={}", setup.len()), nthreads >= 2 || setup.len() > 100);
+}
+
+fn main() {
+    let args = Args::parse();
+    quiet_panics();
+    let mut rng = Rng::new(args.seed);
+    let mut dist = Dist::default();
+
+    // ---------------------------------------------------------------- sequential traces
+    let mut seq = CaseWriter::new(&args.out, "seq");
+    // corpus: self-loops, parallel edges, undirected edges, node deletion with incident edges
+    let corpus: Vec<Vec<Op>> = vec![
+        vec![Op::CreateNode, Op::CreateNode, Op::CreateEdge(1, 2, true), Op::CreateEdge(1, 2, true), Op::CreateEdge(2, 1, false), Op::CreateEdge(1, 1, false),
+             Op::CreateEdge(1, 1, true), Op::DeleteEdge(2), Op::DeleteNode(1), Op::DeleteNode(1), Op::DeleteEdge(1)],
+        vec![Op::CreateNode, Op::CreateNode, Op::CreateNode, Op::CreateEdge(1, 2, false), Op::CreateEdge(2, 3, true), Op::CreateEdge(3, 1, true),
+             Op::CreateEdge(2, 2, false), Op::DeleteNode(2), Op::CreateEdge(1, 2, true), Op::CreateEdge(3, 1, false), Op::UpdateEdge(3), Op::DeleteEdge(3), Op::UpdateNode(2)],
+    ];
+    for (i, ops) in corpus.iter().enumerate() {
+        seq_case(ops, &format!("corpus#{i}"), &mut seq, &mut dist);
+    }
+    let nseq = args.budget(260, 8000);
+    for i in 0..nseq {
+        let ops = gen_seq(&mut rng, &mut dist);
+        seq_case(&ops, &format!("seq#{i}"), &mut seq, &mut dist);
+    }
+
+    // ---------------------------------------------------------------- concurrent runs
+    let mut conc = CaseWriter::new(&args.out, "conc");
+    // corpus F-C05-rmw: 8 threads x 50 create_edge(hub, spoke_i)
+    {
+        let mut setup = vec![Op::CreateNode];
+        for _ in 0..50 {
+            setup.push(Op::CreateNode);
+        }
+        let threads: Vec<Vec<Op>> = (0..8).map(|_| (0..50).map(|i| Op::CreateEdge(1, 2 + i, true)).collect()).collect();
+        conc_case(0, &setup, threads, "corpus F-C05-rmw hub 8x50", &mut conc);
+        dist.hit("conc.hub_create");
+    }
+    // delete_node above PARALLEL_THRESHOLD (rayon branch) with many edges to the same few neighbours
+    for rep in 0..args.budget(3, 30) {
+        let mut setup = vec![Op::CreateNode, Op::CreateNode, Op::CreateNode, Op::CreateNode];
+        let m = 110 + rng.below(60);
+        for _ in 0..m {
+            let spoke = rng.range(2, 4);
+            let d = rng.chance(1, 2);
+            if rng.chance(1, 2) {
+                setup.push(Op::CreateEdge(1, spoke, d));
+            } else {
+                setup.push(Op::CreateEdge(spoke, 1, d));
+            }
+        }
+        setup.push(Op::CreateEdge(2, 3, true));
+        setup.push(Op::DeleteNode(1));
+        conc_case(0, &setup, vec![], &format!("delete_node rayon branch #{rep}"), &mut conc);
+        dist.hit("conc.delete_node_parallel_branch");
+    }
+    let reps = args.budget(2, 40);
+    for t in 2..=8u64 {
+        for rep in 0..reps {
+            // (a) hub: every thread adds edges between the hub and the spokes (directed/undirected, both ways)
+            let spokes = rng.range(2, 6);
+            let mut setup = vec![Op::CreateNode];
+            for _ in 0..spokes {
+                setup.push(Op::CreateNode);
+            }
+            let k = rng.range(20, 50);
+            let threads: Vec<Vec<Op>> = (0..t)
+                .map(|_| {
+                    (0..k)
+                        .map(|_| {
+                            let s = rng.range(2, spokes + 1);
+                            let d = rng.chance(1, 2);
+                            if rng.chance(1, 2) { Op::CreateEdge(1, s, d) } else { Op::CreateEdge(s, 1, d) }
+                        })
+                        .collect()
+                })
+                .collect();
+            conc_case(0, &setup, threads, &format!("hub t={t} rep={rep}"), &mut conc);
+            dist.hit(&format!("conc.hub_create.threads_{t}"));
+
+            // (b) creations on overlapping nodes + deletions of setup edges (each by one thread only)
+            let nn = rng.range(3, 6);
+            let mut setup = vec![];
+            for _ in 0..nn {
+                setup.push(Op::CreateNode);
+            }
+            let pre = rng.range(10, 30);
+            for _ in 0..pre {
+                let f = rng.range(1, nn);
+                let to = if rng.chance(1, 8) { f } else { rng.range(1, nn) };
+                setup.push(Op::CreateEdge(f, to, rng.chance(1, 2)));
+            }
+            let mut threads: Vec<Vec<Op>> = (0..t).map(|_| vec![]).collect();
+            for eid in 1..=pre {
+                if rng.chance(2, 3) {
+                    let who = rng.below(t) as usize;
+                    threads[who].push(Op::DeleteEdge(eid));
+                }
+            }
+            for th in threads.iter_mut() {
+                for _ in 0..rng.range(10, 30) {
+                    let f = rng.range(1, nn);
+                    let to = if rng.chance(1, 8) { f } else { rng.range(1, nn) };
+                    let pos = rng.below(th.len() as u64 + 1) as usize;
+                    th.insert(pos, Op::CreateEdge(f, to, rng.chance(1, 2)));
+                }
+            }
+            conc_case(0, &setup, threads, &format!("mixed create/delete t={t} rep={rep}"), &mut conc);
+            dist.hit(&format!("conc.create_delete_edges.threads_{t}"));
+        }
+    }
+
+    write_meta(
+        &args.out,
+        json!({
+            "property": "C05", "seed": args.seed, "tier": args.tier,
+            "kinds": [seq.summary(), conc.summary()],
+            "distribution": dist.json(),
+            "nontrivial_rule": "seq: a delete_node of a node with incident edges succeeded; conc: at least two threads (or the rayon branch of delete_node with > 100 incident edges)",
+        }),
+    );
+}
